@@ -19,7 +19,8 @@ complex input, both directions, both engines, both precisions and mixed dtypes; 
 integer and non-integer Q; fixed-sampling wrappers and Wavefront methods (both precisions); generated histories over the
 shared executors (transforms, backprops, clear(), precision switches, argument-spelling aliases, same-size argument
 families) and through the fixed-sampling wrappers / to_fpm_and_back at fixed array sizes; repeat / aliasing cases;
-integer and boolean images; extreme aspect ratios.
+integer and boolean images; extreme aspect ratios; argument-form equivalence (class E) and foreign-traffic histories
+(class F) through vp/propforms.py.
 """
 import itertools
 import math
@@ -40,7 +41,17 @@ RULE = ('cases are (input shape, output shape, Q kind, shift kind, dtype, direct
         'shifted and unshifted, changing wavelength / focal length / spacings, precision switches) at fixed array sizes.  '
         'Repeat cases call one routine several times with the *same argument objects* (data in six memory layouts; Q / samples '
         '/ shift as tuple, list, float64 / float32 / int ndarray, numpy scalars where the API accepts them), through its function '
-        'and method form and with the other engine in between, and once more with plain python arguments.  A case is '
+        'and method form and with the other engine in between, and once more with plain python arguments.  Form cases (class E, '
+        'vp/propforms.py) call each of the eight routines once in a canonical form (complex128 C-ordered data, python floats and '
+        'tuples, keywords, explicit defaults) and then in every other form the reference tree accepts for the same numbers: the '
+        'field as real-dtype float / integer / boolean / complex64 array (both directions, both engines), Q / shift / sample counts as '
+        'list, float64 / float32 / integer ndarray, numpy scalars, a scalar for an equal pair, physical scalars as numpy float64 / '
+        'float32 / int64 scalars, python ints and 0-d arrays, all-positional and required-positional calls, omitted defaults after a '
+        'call with other explicit values, the Wavefront method form (keyword, positional, omitted defaults).  Foreign-history cases '
+        '(class F) first run the other public consumers of fftrange / forward_ft_unit / fftfreq / make_xy_grid / pad2d / crop_center '
+        'and of the shared executors (backprops, fourier_resample, PSD, convolution, free space) at the case\'s axis lengths with '
+        'non-zero shifts, ndarray containers, precision 32 and every returned array edited in place, then drive every route at '
+        'those lengths without clearing anything.  A case is '
         'non-trivial when the input has >= 2 non-zero samples (histories: >= 1 transform op); distinct = distinct descriptor')
 ASSUMPTIONS = [
     'reference = textbook DFT sum with origin at index n//2 on every axis, Q[0]->axis 0, shift[0]->axis 1, coordinate - shift, '
@@ -51,8 +62,16 @@ ASSUMPTIONS = [
     'error scale is ||a||_1 / sqrt(Na Q0 Ma Q1), the bound on every output sample; rtol = max(1e-9 (float64) / 1e-3 (float32), 1000 eps phi) with phi '
     'the largest kernel / chirp phase of the call (observed round-off <= 0.5 eps phi); calls whose tolerance would exceed 3e-2 are excluded and counted',
     'a shift handed over in a float32 container is float32 arithmetic by numpy\'s promotion rules: such calls are judged at the float32 tolerance',
-    'mdft: samples_out / shift passed as list or ndarray (unhashable cache key, TypeError) are out of domain, czt accepts them; '
-    'the fixed-sampling wrappers accept a non-zero shift in any container and sample counts as int, tuple or numpy integers',
+    'the set of accepted argument forms is fixed from the reference tree (/repo @ faa8443, probe `python -m vp.propforms`): both '
+    'executors accept Q / shift / sample counts as tuple, list, ndarray, numpy scalars or a scalar for an equal pair; the '
+    'fixed-sampling wrappers index the shift, so a bare scalar shift is out of domain (vp/propforms.py::REJECTED, skipped and counted)',
+    'form equivalence: a form must reproduce the canonical result to 1e-12 of max(max|canonical|, bound on the output magnitude) -- '
+    'to 1e-3 when the form carries float32 numbers (numpy then computes Q / shift in float32), for complex64 / float32 data and in the '
+    'float32 configuration; an integer / boolean array through czt in the float32 configuration is single precision too (the chirps are '
+    'built in the configured precision)',
+    'foreign traffic is not judged (exceptions of foreign routines are counted); arrays a public routine returned belong to the caller '
+    'and may be edited; a foreign routine that leaves prysm.conf.config.precision changed is reported under its own key and the '
+    'configuration is repaired before the routes are judged',
     'integer and boolean arrays are real input (the model converts them to float64)',
     'repeat law: the routines are deterministic, so a later call with the same argument objects must reproduce the first to 10 eps; '
     'container / layout independence is required to 1e-12 (float32 containers: 1e-4, float32 data or configuration: 1e-3)',
@@ -62,7 +81,7 @@ ASSUMPTIONS = [
 ]
 REQUIRED = ['engine.textbook-dft/mdft', 'engine.textbook-dft/czt', 'fft-route.textbook-dft', 'fixed-sampling.physical-Q',
             'engine.history-independence/mdft', 'engine.history-independence/czt', 'history.ops', 'history.wrapper-ops',
-            'repeat.same-objects', 'alias.container-independence']
+            'repeat.same-objects', 'alias.container-independence', 'form.equivalence', 'foreign.traffic']
 
 CTX = None
 CUR = {'desc': None}           # descriptor of the case being driven (set by the workloads)
@@ -556,7 +575,8 @@ def engine_post(engine, fn, fwd):
             CTX.skip('engine: all-zero or non-finite input (trivial)')
             return
         CTX.observe(f'engine.textbook-dft/{engine}')
-        single = is_single(ary.dtype) or (engine == 'mdft' and conf_bits() == 32) or low_precision(snap.get('shift', (0, 0)))
+        single = (is_single(ary.dtype) or (engine == 'mdft' and conf_bits() == 32) or low_precision(snap.get('shift', (0, 0)))
+                  or (engine == 'czt' and intlike and conf_bits() == 32))      # integer / boolean input: chirps in the configured precision
         rtol = rtol_for(engine, single, ary.shape, Qp, out, sh)
         if rtol is None:
             CTX.observe(f'engine.textbook-dft/{engine}', -1)
@@ -578,8 +598,16 @@ def engine_post(engine, fn, fwd):
         if stale and mismatch(result, ref, (rtol_for(engine, True, ary.shape, Qp, out, sh) or 3e-2) * scale, modonly) is None:
             return      # already reported by M2 under KEY_STALE: float32-accurate result in a float64 configuration
         if engine == 'czt' and intlike:
-            CTX.violation(KEY_INTDTYPE, WHAT_INTDTYPE, desc, **detail)
-            return
+            # single-cause attribution (for the key only): the integer / boolean dtype is the cause when the float64 copy of the
+            # same array gives the textbook sum on a fresh executor; otherwise the generic key below is used
+            try:
+                alt = _fresh_call(cls, fn, (args[0],), dict(snap, ary=ary.astype(np.float64)))
+                dtype_is_cause = mismatch(alt, ref, tol, modonly) is None
+            except Exception:
+                dtype_is_cause = False
+            if dtype_is_cause:
+                CTX.violation(KEY_INTDTYPE, WHAT_INTDTYPE, desc, **detail)
+                return
         if engine == 'czt':
             causes = diagnose_czt(ary, Qp, out, sh, fwd, result, tol)
             if causes:
@@ -681,7 +709,8 @@ def fixed_post(fn, fwd):
             return
         CTX.observe('fixed-sampling.physical-Q')
         # a shift handed over in a float32 container is converted to samples in float32 by numpy's promotion rules
-        single = is_single(ary.dtype) or (method == 'mdft' and conf_bits() == 32) or low_precision(a.get('shift', (0, 0)))
+        single = (is_single(ary.dtype) or (method == 'mdft' and conf_bits() == 32) or low_precision(a.get('shift', (0, 0)))
+                  or any(low_precision(a[k]) for k in ('input_dx', 'prop_dist', 'wavelength', 'output_dx')))      # numpy.float32 scalars: Q is float32 arithmetic
         rtol = rtol_for(method, single, ary.shape, (Q, Q), out, sh)
         if rtol is None:
             CTX.observe('fixed-sampling.physical-Q', -1)
@@ -1337,11 +1366,11 @@ def wl_repeat(ctx, rng):
                 Qv = (float(int(rng.integers(1, 4))), float(int(rng.integers(1, 4))))
             Qc = Qv[0] if qkind == 'py' else make_container(qkind, Qv)
             Qplain = Qv[0] if qkind == 'py' else container_values(Qc)
-            skinds = ['tuple', 'np-ints'] + (['int', 'np-int-scalar'] if M == N else []) + (['list', 'nd'] if method == 'czt' else [])
+            skinds = ['tuple', 'np-ints'] + (['int', 'np-int-scalar'] if M == N else []) + ['list', 'nd']
             skind = skinds[int(rng.integers(len(skinds)))]
             Sc = _samples_container(skind, M, N)
             sh = pick_shift(sk, rng)
-            hkinds = ['tuple', 'np-scalars'] + (['list', 'nd-f64', 'nd-f32'] + (['nd-int'] if sk != 'frac' else []) if method == 'czt' else [])
+            hkinds = ['tuple', 'np-scalars', 'list', 'nd-f64', 'nd-f32'] + (['nd-int'] if sk != 'frac' else [])
             hkind = hkinds[int(rng.integers(len(hkinds)))]
             shc = make_container(hkind, sh)
             shplain = container_values(shc)
@@ -1358,11 +1387,10 @@ def wl_repeat(ctx, rng):
             ctx.case(desc)
             objs = {'ary': a, 'Q': Qc, 'samples_out': Sc, 'shift': shc}
             forms = []
-            if hkind in ('tuple', 'np-scalars') and skind not in ('list', 'nd'):      # containers both engines accept
-                def other_between(other=other, ofn=ofn, ex=ex, fn=fn, **kw):
-                    getattr(other, ofn)(**kw)
-                    return getattr(ex, fn)(**kw)
-                forms.append((f'{ofn} in between', other_between))
+            def other_between(other=other, ofn=ofn, ex=ex, fn=fn, **kw):
+                getattr(other, ofn)(**kw)
+                return getattr(ex, fn)(**kw)
+            forms.append((f'{ofn} in between', other_between))
             base = {'ary': lambda: np.array(a0, order='C', copy=True), 'Q': lambda: Qplain, 'samples_out': lambda: (M, N), 'shift': lambda: shplain}
 
             def plain(over, base=base, ex=ex, fn=fn):
@@ -1557,6 +1585,96 @@ def wl_wrapper_histories(ctx, rng):
             fttools.czt.clear()
 
 
+# ---- class E: argument-form equivalence (vp/propforms.py) ------------------------------------------------
+FORM_ROUTINES = ('dft2', 'idft2', 'czt2', 'iczt2', 'focus', 'unfocus', 'focus_fixed_sampling', 'unfocus_fixed_sampling')
+
+
+def wl_forms(ctx, rng):
+    """Class E: every routine of the property in its canonical form (complex128 data, python floats / tuples, keywords, explicit
+    defaults) and then in every other form the reference tree accepts for the same numbers -- field dtype kinds (a real-dtype,
+    integer or boolean array vs its complex copy, both directions, both engines), Q / shift / sample counts as list, ndarray,
+    numpy scalars, 0-d arrays, a scalar for an equal pair, physical scalars as numpy / integer scalars, positional calls,
+    omitted defaults after a call with other explicit values, the Wavefront method form.  Each form must reproduce the
+    canonical result; each call is also judged by the contracts (textbook sum, fresh executor)."""
+    from .. import propforms as PF
+    from ..util import precision
+    reps = ctx.pick(4, 600)
+    k = -1
+    for rep in range(reps):
+        for routine in FORM_ROUTINES:
+            for kind in PF.FIELD_KINDS:
+                k += 1
+                if not ctx.mine(k):
+                    continue
+                bits = 32 if (k // ctx.nshards) % 5 == 4 else 64
+                vals = PF.draw_values(routine, rng, kind)
+                farg = 'ary' if routine in PF.ENGINES else 'wavefunction'
+                desc = {'wl': 'forms', 'routine': routine, 'field_kind': kind, 'precision': bits, 'k': k,
+                        'values': {a: v for a, v in vals.items() if not isinstance(v, np.ndarray)}, 'in': list(vals[farg].shape),
+                        'class': f'forms:{routine}:{kind}:p{bits}'}
+                ctx.case(desc, nontrivial=nontrivial(vals[farg]))
+                CUR['desc'] = desc
+                try:
+                    with precision(bits):
+                        PF.judge_forms(ctx, 'C01', routine, vals, desc, single=bits == 32, field_kinds={farg: kind})
+                finally:
+                    CUR['desc'] = None
+        if rep % 8 == 7:
+            from prysm import fttools
+            fttools.mdft.clear()
+            fttools.czt.clear()
+
+
+# ---- class F: cross-module histories ------------------------------------------------------------------
+def wl_foreign(ctx, rng):
+    """Class F: the other public consumers of fftrange / forward_ft_unit / fftfreq / make_xy_grid / pad2d and the shared
+    executors run first at the axis lengths of the case (non-zero shifts, ndarray containers, precision 32, returned arrays
+    edited in place), then every route of the property is driven at those lengths WITHOUT clearing anything and judged by the
+    contracts (which know nothing of the process history)."""
+    from .. import propforms as PF
+    from prysm import propagation as P
+    for rep in range(ctx.share(ctx.pick(16, 3200))):
+        hi = ctx.pick(10, 24)
+        lengths = sorted(set(int(v) for v in rng.integers(2, hi + 1, 3)))
+        dx = [0.1, 0.05, 1.0][int(rng.integers(3))]
+        desc0 = {'wl': 'foreign', 'lengths': lengths, 'dx': dx, 'rep': rep, 'class': 'foreign-traffic-then-routes'}
+        ctx.case(desc0)
+        CUR['desc'] = dict(desc0, phase='foreign-traffic')
+        try:
+            PF.foreign_traffic(ctx, rng, lengths, dxs=(dx, 1.0), heavy=(rep % 3 == 0), prefix='C01', desc=CUR['desc'])
+        finally:
+            CUR['desc'] = None
+        for j in range(ctx.pick(6, 8)):
+            m, n = (lengths[int(v)] for v in rng.integers(len(lengths), size=2))
+            M, N = (lengths[int(v)] for v in rng.integers(len(lengths), size=2))
+            seed = ctx.subseed(rng)
+            a = make_input((m, n), bool(j % 3), seed)
+            for method in ('mdft', 'czt'):
+                for fwd in (True, False):
+                    sk = SHIFT_KINDS[int(rng.integers(3))] if j % 2 else 'none'
+                    Q, shift = pick_Q(Q_KINDS[int(rng.integers(3))], rng), pick_shift(sk, rng)
+                    desc = dict(desc0, phase='judged', **{'in': (m, n), 'out': (M, N), 'Q': Q, 'shift': shift, 'fwd': fwd, 'method': method, 'seed': seed})
+                    drive_engine(ctx, method, fwd, a, Q, (M, N), shift, desc)
+            desc = dict(desc0, phase='judged', **{'in': (m, m), 'samples': (M, M), 'seed': seed})
+            CUR['desc'] = desc
+            try:
+                with ctx.guard('C01/foreign-history/routes', desc):
+                    b = make_input((m, m), True, seed + 1)
+                    wvl, efl = 0.5, 100.0
+                    dxo = wvl * efl / (m * dx) / [1, 2, 1.5][j % 3]
+                    P.focus_fixed_sampling(b, dx, efl, wvl, dxo, M, method=('mdft', 'czt')[j % 2])
+                    P.Wavefront(b, wvl, dx).focus_fixed_sampling(efl, dxo, (M, M), shift=(dxo, -0.5 * dxo), method=('czt', 'mdft')[j % 2])
+                    P.unfocus_fixed_sampling(make_input((M, M), True, seed + 2), dxo, efl, wvl, dx, m, method=('mdft', 'czt')[j % 2])
+                    P.focus(a, [1, 2, 1.5][j % 3])
+                    P.unfocus(a, [2, 1, 2.5][j % 3])
+                    P.Wavefront(b, wvl, dx).focus(efl, Q=2).unfocus(efl, Q=1)
+            finally:
+                CUR['desc'] = None
+    from prysm import fttools
+    fttools.mdft.clear()
+    fttools.czt.clear()
+
+
 # ---- class D: input dtypes and extreme aspect ratios ----------------------------------------------------
 INT_DTYPES = [np.int64, np.int32, np.int16, np.int8, np.uint8, np.uint16, np.bool_]
 
@@ -1668,6 +1786,8 @@ def run(ctx):
         timed('wrapper-histories', wl_wrapper_histories, ctx, ctx.rng('c01-wrapper-hist'))
         timed('repeat', wl_repeat, ctx, ctx.rng('c01-repeat'))
         timed('dtypes-aspect', wl_dtypes_and_aspect, ctx, ctx.rng('c01-dtype'))
+        timed('forms', wl_forms, ctx, ctx.rng('c01-forms'))
+        timed('foreign', wl_foreign, ctx, ctx.rng('c01-foreign'))
         timed('random', wl_random, ctx, ctx.rng('c01-random'))
         timed('float32', wl_float32, ctx, ctx.rng('c01-f32'))
         ctx.note('workload_seconds(first shard)', secs)
